@@ -1804,6 +1804,50 @@ theorem described_datainfo_equiv_derived (pre : Predef) (D : Consts F) (hD : D.O
   rw [hdi, hp]
   simp only [dtOpsOf, d1, d2 j prev]
 
+/-- **instance_limit_from_cfg** (class + configuration ↦ the datatype object of the instance).  For a well-formed scaled
+datatype of the class with on-grid limits, `copy()` is the identity (C03 `copy_core`), so the instance datatype is the
+class datatype with the configured limit put in AS GIVEN — on the grid or not (compare C03 `copy_snaps`: a limit of
+the CLASS that is off the grid is moved to it by the copy; this asymmetry is the recorded finding). -/
+theorem instance_limit_from_cfg (D : Consts F) (hD : D.OK) (s mn mx ar rr x : F) (u f : String)
+    (hwf : (DInfo.scaled s mn mx ar rr u f).WF D) (hex : (DInfo.scaled s mn mx ar rr u f).Exportable)
+    (hx : isFinite x = true) (hc : addZero x = x) (hle : le mn x = true) :
+    instanceDatatype D (.scaled s mn mx ar rr u f) [(.max, .float x)] = .ok (.scaled s mn x ar rr u f) := by
+  have hcopy := copy_core D hD Frappy.Props.C03.constsOK2 _ hwf hex
+  have hset := cfg_limit_stored D hD .max x s mn mx ar rr u f hx hc
+  simp only at hset
+  simp only [instanceDatatype, hcopy, applyLimits, hset, limitsOrdered, hle, if_true]
+
+/-- **model_change_probe_ok_derived** (the monitor clause "a payload the described datainfo excludes is refused, nothing
+is written" holds of the model WITHOUT an oracle assumption).  In a node over the datatype model whose parameters all
+carry the operations of one well-formed tree with on-grid scaled limits, the exchange of ANY `change m:a` aimed at a
+described parameter satisfies `ProbeOK`, the client verdict being computed from the DESCRIBED datainfo
+(`get_datatype`, `import_value`, `validate` against the value held). -/
+theorem model_change_probe_ok_derived [DecidableEq (JVal F)] (pre : Predef) (D : Consts F) (hD : D.OK)
+    (env : Env (PVal F)) (n : Node (JVal F) (PVal F)) (hwf : Node.WF pre n) (hno : NoForeignReadOnly env n)
+    (hdt : ∀ mod ∈ n, ∀ p, Acc.param p ∈ mod.accs → ∃ ev t, p.dt = dtOpsOf D ev t ∧ t.WF D ∧ t.Exportable)
+    (m a : String) (j : JVal F) (allowed : Bool)
+    (hallowed : allowed = true → ∃ m' a' hw v w, changeVerdict pre env n (.full m a) j = .allow m' a' hw v w)
+    (ad : AccDesc (JVal F)) (hd : findDesc (describe pre n) m a = some ad) (hk : ad.kind = .parameter) :
+    ∃ mod p, lookupParam pre n m a = .ok (mod, p) ∧
+      ProbeOK (describe pre n)
+        ⟨.change, m, a, (handleChange pre env n (.full m a) j).reply, (handleChange pre env n (.full m a) j).calls, false,
+         allowed, false,
+         match clientAccept D ad.datainfo j (some p.entry.value) with
+         | .ok _ => true
+         | .error _ => false⟩ := by
+  obtain ⟨mod, p, hl, hall⟩ := described_datainfo_equiv_derived pre D hD n hwf m a ad hd hk
+  refine ⟨mod, p, hl, model_change_probe_ok pre env n hwf hno m a j allowed _ hallowed ?_⟩
+  intro hcl mod' p' hl'
+  rw [hl] at hl'; injection hl' with hl'; injection hl' with h1 h2; subst h1; subst h2
+  have hex := exported_of_lookupParam pre n m a mod p hl
+  obtain ⟨ev, t, hp, htw, hte⟩ := hdt mod hex.1 p hex.2.2.2.1
+  have heq := hall ev t hp htw hte j (some p.entry.value)
+  rintro ⟨v, hv⟩
+  rw [← heq] at hv
+  cases hca : clientAccept D ad.datainfo j (some p.entry.value) with
+  | ok r => rw [hca] at hcl; simp at hcl
+  | error e => rw [hca] at hv; simp [liftRes] at hv
+
 end Derived
 
 /-! non-vacuity of the derived-datainfo theorems: the exact carrier, `ScaledInteger(0.1, 0, 1)` whose `max` the
